@@ -1,8 +1,10 @@
 """C14 — diagnostics point at the offending construct in the user's own file."""
 
 from props import C19
-THEOREM_MODULES = ["Hcl.Theorems.C14", "Hcl.Theorems.C14Render", "Hcl.Tie.PinsIo", "Hcl.Tie.PinsErrors", "Hcl.Tie.PinsLexer", "Hcl.Tie.PinsGrammar", "Hcl.Theorems.C14Stmts"]
-THEOREMS = {"Hcl.Theorems.C14Stmts": ["C14_statements_erase", "C14_statements_erase_tokens", "C14_statement_spans", "C14_statement_names", "C14_statement_spans_in_text", "C14_statements_ordered", "C14_identifier_span"],
+THEOREM_MODULES = ["Hcl.Theorems.C14", "Hcl.Theorems.C14Render", "Hcl.Tie.PinsIo", "Hcl.Tie.PinsErrors", "Hcl.Tie.PinsLexer", "Hcl.Tie.PinsGrammar", "Hcl.Theorems.C14Stmts", "Hcl.Theorems.C14Diag", "Hcl.Theorems.C14DiagAll"]
+THEOREMS = {"Hcl.Theorems.C14DiagAll": ["C14_diag_points_at", "C14_diag_spans_in_text", "C14_diag_spans_in_text_le", "C14_points_at_in_text", "C14_checker_points", "C14_checker_points_at", "C14_eval_after_check_unlocated", "C14_check_eval_points_at", "C14_constants_points", "C14_banks_points", "C14_actions_points"],
+            "Hcl.Theorems.C14Diag": ["C14_diag_erase", "C14_diag_step1_verdict", "C14_diag_points_at_step1", "C14_diag_names_in_text"],
+            "Hcl.Theorems.C14Stmts": ["C14_statements_erase", "C14_statements_erase_tokens", "C14_statement_spans", "C14_statement_names", "C14_statement_spans_in_text", "C14_statements_ordered", "C14_identifier_span"],
             "Hcl.Tie.PinsGrammar": ["Tie.PinsGrammar.pinGrammarFile"],
             "Hcl.Tie.PinsLexer": ["Tie.PinsLexer.pinLexerNext", "Tie.PinsLexer.pinLexerChooseToken", "Tie.PinsLexer.pinLexerGetWhile", "Tie.PinsLexer.pinLexerInternalNext", "Tie.PinsLexer.pinLexerResolveIdentifier"],
             "Hcl.Theorems.C14Render": ["C14_render_total", "C14_render_names", "C14_render_regions", "C14_render_located", "C14_render_multiple", "C14_render_leaves", "C14_render_ok_iff", "C14_grammar_tokens_ok", "Errors.render_total", "Errors.render_names_wire", "Errors.render_regions", "Errors.render_multiple"],
@@ -11,7 +13,7 @@ THEOREMS = {"Hcl.Theorems.C14Stmts": ["C14_statements_erase", "C14_statements_er
                                  "Io.lookupIndex_spec", "Io.lineNumberAndBounds_user", "Io.showRegion_line",
                                  "Yo.validUtf8_boundary", "Yo.validUtf8_append", "C14_token_spans", "Lexer.lexStep_ok", "Lexer.handleConstant_pos",
                                  "C14_expression_spans", "C14_expression_extent", "Parser.parseTier_spans", "Parser.parseExpr_spans"],
-            "Hcl.Tie.PinsErrors": ["Tie.PinsErrors.pinFormatForContents", "Tie.PinsErrors.pinFormatTokenList", "Tie.PinsErrors.pinListWithAnd"],
+            "Hcl.Tie.PinsErrors": ["Tie.PinsErrors.pinFormatForContents", "Tie.PinsErrors.pinFormatTokenList", "Tie.PinsErrors.pinListWithAnd", "Tie.PinsErrors.pinFindCloseNames"],
             "Hcl.Tie.PinsIo": ["Tie.PinsIo.pinMarkNewlines", "Tie.PinsIo.pinFilename", "Tie.PinsIo.pinLineNumberAndBounds", "Tie.PinsIo.pinShowRegion", "Tie.PinsIo.pinNewFromData", "Tie.PinsIo.pinNewFromFile"]}
 
 RULE = ("S-REGION: FileContents::new_from_data + show_region / line_number_and_bounds / range of the real code on small "
@@ -91,10 +93,24 @@ def judge_render(req, impl, model, spec):
     what = ""
     # hand-built error values may carry spans no real error has (the renderer's latent slicing defects): only what the real
     # code produces must render
+    if impl == "UNSTABLE":
+        ok = False
+        what = "the same text, parsed and built three times, gave different diagnostics (kinds, names, suggested names or spans; beyond their order and which loop is shown) (%s, %s)" % (how, variant)
     if impl == "PANIC" and not how.startswith("synthetic"):
         ok = False
         what = "rendering the diagnostics of a real rejection panicked (%s, %s)" % (how, variant)
-    return {"corr": impl == model, "oracle": ok, "what": what, "key": req, "cats": ["how-" + how.split("-")[0], "variant-" + variant]}
+    # the verdict of the spanned model of Program::new (Program.newSp) on the spans of the real diagnostics: the driver parses
+    # the text, rebuilds the program and compares (kind, names, spans) as multisets with the real Error value
+    _, _, verdict = spec.partition("\x00")
+    verdict = verdict.strip()
+    cats = ["how-" + how.split("-")[0], "variant-" + variant]
+    spans_ok = True
+    if verdict:
+        cats.append(verdict.split(":")[0])
+        spans_ok = not verdict.startswith("diag-spans-DIFFER")
+    if not spans_ok:
+        model = model + " [diag-spans-DIFFER: the spans Program.newSp attaches to the diagnostics differ from those of the real Error value]"
+    return {"corr": impl == model and spans_ok, "oracle": ok, "what": what, "key": req, "cats": cats}
 
 
 def judge_lex(req, impl, model, spec):
